@@ -318,8 +318,11 @@ class Engine:
         return SymSet(items)
 
     def cf(self, x):
-        """casefold in oracle formulas"""
-        return CF(_s(x))
+        """casefold in oracle formulas (registered, so that counterexamples define it at character level)"""
+        t = _s(x)
+        if not any(t.eq(a) for a in self.cf_apps):
+            self.cf_apps.append(t)
+        return CF(t)
 
     def norm(self, e):
         if self.subst:
@@ -925,6 +928,34 @@ class SymBool:
         return f"SymBool({self.e})"
 
 
+class SymAffix(SymBool):
+    """s.startswith(p) / s.endswith(p).  When the test is taken on its true side and s is still an undecomposed
+    variable, s is decomposed as p ++ rest (rest ++ p), so that later slices such as s[len(p):] stay structural."""
+    __slots__ = ("s", "p", "front")
+
+    def __init__(self, s, p, front):
+        self.s, self.p, self.front = s, p, front
+        self.e = z3.PrefixOf(p, s) if front else z3.SuffixOf(p, s)
+
+    def __bool__(self):
+        eng = E()
+        r = eng.branch(self.e)
+        if r and getattr(eng, "symbolic", False):
+            v = eng.norm(self.s)
+            pn = eng.norm(self.p)
+            # only for a symbolic affix: a constant one is cheaper to keep as a plain prefixof / suffixof literal
+            if (z3.is_const(v) and v.decl().kind() == z3.Z3_OP_UNINTERPRETED and not z3.is_string_value(pn)
+                    and not any(x.eq(v) for x in flatten(pn))):
+                key = ("affix", v.get_id(), pn.get_id(), self.front)
+                if key not in eng.memo:
+                    rest = eng.fresh_str("ar")
+                    eng.memo[key] = rest
+                    rep = z3.Concat(pn, rest) if self.front else z3.Concat(rest, pn)
+                    eng.define(v == rep)
+                    eng.subst.append((v, rep))
+        return r
+
+
 class SymInt:
     __slots__ = ("e",)
 
@@ -1154,14 +1185,14 @@ class SymStr:
             raise Unsupported("startswith with start/end")
         if isinstance(p, tuple):
             return SymBool(z3.Or([z3.PrefixOf(_s(x), self.e) for x in p]))
-        return SymBool(z3.PrefixOf(_s(p), self.e))
+        return SymAffix(self.e, _s(p), True)
 
     def endswith(self, p, *a):
         if a:
             raise Unsupported("endswith with start/end")
         if isinstance(p, tuple):
             return SymBool(z3.Or([z3.SuffixOf(_s(x), self.e) for x in p]))
-        return SymBool(z3.SuffixOf(_s(p), self.e))
+        return SymAffix(self.e, _s(p), False)
 
     def _cls(self, name):
         if getattr(E(), "ascii_classes", False):
@@ -1941,6 +1972,16 @@ def sym_hash(x):
     if th is None:
         raise TypeError(f"unhashable type: '{type(x).__name__}'")
     return th(x)
+
+
+def sym_print(*args, sep=" ", end="\n", file=None, flush=False):
+    """print() inside rewritten modules: to an in-memory file it records one structured line."""
+    if file is not None and hasattr(file, "print_line"):
+        file.print_line([a if is_strlike(a) else sym_str(a) for a in args], sep, end)
+        return
+    if any(_has_sym(a) for a in args):
+        return      # printing symbolic values to a real stream: nothing to observe
+    print(*args, sep=sep, end=end, file=file, flush=flush)
 
 
 def sym_sorted(it, *, key=None, reverse=False):
